@@ -45,13 +45,23 @@ def gen_case(seed, tier, opts=None):
         L = 604800 * g.rint(1, 2)
     else:
         L = g.pick([1, 2, 5, 59, 60, 61, 90, 600, 3600, 3661, 86399, 86400, 100000])
+    if g.chance(0.08):
+        # "all limits from 1 s upwards": weeks and months (32-bit millisecond counters wrap at 24.8 and 49.7 days)
+        L = 86400 * g.pick([21, 25, 30, 50, 60, 100, 400])
+        if form == 'DT':
+            L += 3600 * g.rint(1, 23)
+        elif form == 'W':
+            L = 604800 * g.pick([3, 4, 8, 60])
     lifek = g.wpick([('short', 3), ('justunder', 2), ('justover', 3), ('long', 3)])
     life = {'short': max(0.0, L * g.uni(0.0, 0.5)), 'justunder': max(0.0, L - 2.0),
             'justover': L + 2.0, 'long': L * g.uni(1.5, 4.0) + 5}[lifek]
     stall = g.pick([0.0, 0.0, 0.3, 1.0])
+    # the executor held up between arming its deadline and spawning the job (slow open/mkstemp/chdir):
+    # a deadline that expires meanwhile finds no job yet
+    prestall = g.pick([0.0, 0.0, 0.0, 0.4, 1.5, 8.0]) if L <= 10 or g.chance(0.3) else 0.0
     late = g.pick([[0.0, 1.0, 0.0, 0.01], [0.5, 20.0, 0.0, 0.5]])
     case = {'v': 1, 'engine': 'chain', 'property': 'C14', 'seed': seed, 'mode': mode, 'L': L, 'form': form,
-            'life': round(life, 3), 'stall': stall, 'exit': g.pick([0, 1, 7]), 't0': t0, 'late': late,
+            'life': round(life, 3), 'stall': stall, 'prestall': prestall, 'exit': g.pick([0, 1, 7]), 't0': t0, 'late': late,
             'exitlag': g.pick([0, 1, 2])}
     if mode == 'due':
         case['due_rel'] = g.pick([-100, -1, 0, 1, 2, 30, 3600])      # DUE relative to the executor's start
@@ -118,6 +128,7 @@ def run_chain(case):
         xcase = executor_case(case, vt, case['t0'], ['-v'])
         info['vtodo'] = vt
     hist, files, journal, log, rc = c13.execute(xcase)
+    info['hh'] = hashlib.sha1((json.dumps(hist, sort_keys=True) + info.get('vtodo', '')).encode('latin1', 'replace')).hexdigest()
     if rc != 0:
         return [('R-MACHINERY simx', 'rc %d' % rc)], info
     info['xcase'] = xcase
@@ -136,7 +147,8 @@ def executor_case(case, vtodo, start, flags):
     steps = [['s', case['life']], ['x', case['exit']]]
     return {'v': 1, 'engine': 'simx', 'property': 'C14', 'seed': case['seed'], 'start': start, 'row': 19,
             'spec': {'uid': 'd1@sim', 'cmd': 'long job', 'setuid': 1000, 'setgid': 1000},
-            'flags': flags, 'steps': steps, 'faults': {'exitlag': case['exitlag'], 'spawnstall': case['stall']},
+            'flags': flags, 'steps': steps, 'faults': dict({'exitlag': case['exitlag'], 'spawnstall': case['stall']},
+                           **({'prepstall': case['prestall']} if case.get('prestall') else {})),
             'rfrag': None, 'vtodo': vtodo.replace('$R', '')}
 
 
@@ -168,11 +180,12 @@ def judge(xcase, hist, files, journal, log):
     t_spawn = spawns[0]['t']
     life = case['life']
     stall = case['stall']
+    pre = case.get('prestall', 0.0)
     for k in kills:
         # (v) only ever the job itself
         if k['pid'] != k['jobpid'] or k['pid'] <= 0:
             V.append(('R-DEADLINE kill-target', 'kill(%d, %d) while the job is pid %d' % (k['pid'], k['sig'], k['jobpid'])))
-    if life < L - stall - 1.0:
+    if life < L - stall - pre - 1.0:
         # (ii) finishes in time: unaffected
         if kills and any(k['jobalive'] for k in kills):
             V.append(('R-DEADLINE killed-early', 'job of %.1f s with a limit of %d s was killed at +%.1f s'
@@ -187,8 +200,10 @@ def judge(xcase, hist, files, journal, log):
             V.append(('R-DEADLINE not-killed', 'job of %.1f s outlived its limit of %d s (%s) and was never signalled; it ended by itself at +%.1f s'
                       % (life, L, case.get('form') if case['mode'] != 'due' else 'DUE', (jx[0]['t'] - t_spawn) if jx else -1)))
         else:
-            dt = live_kills[0]['t'] - (t_spawn - stall)
-            if dt > L + 1.5 or dt < L - 1.5:
+            # the deadline was armed PRE seconds before the spawn record; the spawn call itself returns STALL seconds
+            # after it.  A job cannot be signalled before it exists: if the deadline passed earlier, at once.
+            dt = live_kills[0]['t'] - (t_spawn - pre)
+            if dt > max(L, pre + stall) + 1.5 or dt < L - 1.5:
                 V.append(('R-DEADLINE kill-time', 'limit %d s: the job was signalled %.1f s after the executor armed its deadline' % (L, dt)))
             if 'X-SIGNAL' not in props:
                 V.append(('R-DEADLINE kill-not-journalled', 'the job was signalled but the journal has no X-SIGNAL: %r' % journal[:300]))
@@ -207,8 +222,12 @@ def run_seed(seed, tier, opts=None):
         probes['job_within_limit'] = 1
     if case['stall']:
         probes['stall_between_alarm_and_spawn'] = 1
+    if case.get('prestall'):
+        probes['held_up_before_spawn'] = 1
+        if case['prestall'] >= case['L'] and case['mode'] != 'due':
+            probes['deadline_expired_before_spawn'] = 1
     return {'seed': seed, 'viol': viol, 'stats': st, 'probes': probes,
-            'hash': hashlib.sha1(json.dumps(case, sort_keys=True).encode()).hexdigest(), 'simsec': case['life'],
+            'hash': info.get('hh') or hashlib.sha1(json.dumps(case, sort_keys=True).encode()).hexdigest(), 'simsec': case['life'],
             'plan_hash': hashlib.sha1(json.dumps(case, sort_keys=True).encode()).hexdigest()[:16], 'nops': 2,
             'sample': dict(case, request=info.get('vtodo', '')[:600])}
 
